@@ -100,13 +100,16 @@ def run_e2e(args):
     return out
 
 
-def cargo_harness(ctx):
+def cargo_harness(ctx, long_stall_ms=None):
     """Copy /repo/rust to scratch, add the integration test, run it (target dir cached by source hash)."""
     work = ctx.scratch / "rustcrate"
+    if work.exists():
+        shutil.rmtree(work)
     shutil.copytree(REPO / "rust", work, ignore=shutil.ignore_patterns("target"))
     (work / "tests").mkdir(exist_ok=True)
     shutil.copy(VERIF / "rust_harness" / "pmap_harness.rs", work / "tests" / "pmap_harness.rs")
-    env = dict(os.environ, CARGO_NET_OFFLINE="true", PYO3_PYTHON="/venv/bin/python", SEDPACK_VERIF="1")   # the hook records channel operations
+    env = dict(os.environ, CARGO_NET_OFFLINE="true", PYO3_PYTHON="/venv/bin/python", SEDPACK_VERIF="1",   # the hook records channel operations
+               PMAP_LONG_STALL_MS=str(long_stall_ms if long_stall_ms is not None else (31000 if ctx.thorough else 10500)))
     p = subprocess.run(["cargo", "test", "--release", "--offline", "--test", "pmap_harness", "--target-dir", str(rustbuild.CACHE / "target-tests"),
                         "--", "--nocapture", "--test-threads=1"], cwd=work, env=env, capture_output=True, text=True, timeout=2400)
     lines = [json.loads(l[5:]) for l in p.stdout.split("\n") if l.startswith("PMAP ")]
@@ -121,11 +124,11 @@ def run(ctx):
     if not lines:
         raise RuntimeError(f"cargo harness produced nothing (rc={rc}): {tail}")
     kinds = collections.Counter(l["kind"] for l in lines)
-    if rc != 0 or kinds["stall"] < 2:
+    if rc != 0 or kinds["stall"] < 3:
         # the integration test itself aborted: a panic inside parallel_map (e.g. a worker that gave up while the consumer stalled)
         done = f"{kinds['full']} full, {kinds['drop']} drop, {kinds['stall']} stall cases completed"
         panic = next((ln.strip() for ln in tail.split("\n") if "panicked" in ln or "died" in ln), tail[-200:])
-        ctx.report({"kind": "stall" if kinds["stall"] < 2 else "abort", "level": "parallel_map", "what": "panic"},
+        ctx.report({"kind": "stall" if kinds["stall"] < 3 else "abort", "level": "parallel_map", "what": "panic"},
                    f"parallel_map aborted in the cargo harness (rc={rc}; {done}): {panic[:200]}", {"cargo_rc": rc, "completed": dict(kinds), "tail": tail[-1500:]})
     reqs = []
     for l in lines:
@@ -144,22 +147,29 @@ def run(ctx):
         else:
             if l["out"] != exp[:l["k"]]:
                 ctx.report(dict(sig, what="prefix"), f"parallel_map early drop after {l['k']}: got {l['out']}", {"case": l})
+            if max(l.get("pulled", 0), l.get("pulled_before_drop", 0)) > l["k"] + min(l["threads"], l["n"]):
+                ctx.report(dict(sig, what="read-ahead"), f"parallel_map(n={l['n']}, threads={l['threads']}) pulled {l.get('pulled_before_drop')} items from its input for {l['k']} results "
+                           f"and {l.get('pulled')} by the time it was dropped (one outstanding task per worker allows {l['k'] + min(l['threads'], l['n'])})", {"case": l})
             if l["threads_alive"] != 0:
                 ctx.report(dict(sig, what="threads-alive"), f"{l['threads_alive']} worker threads still alive after dropping the iterator (n={l['n']}, threads={l['threads']}, k={l['k']})", {"case": l})
             if rep["alive"] != 0 or [x * 10 for x in rep["out"]][:l["k"]] != l["out"]:
                 corr_bad.append({"case": l, "model": rep})
     # ---- correspondence at the level of channel operations: the order recorded by the SEDPACK_VERIF hook (worker recv /
     # worker send / consumer next / drop, under the real thread interleaving) is accepted by M-PMAP and leaves the model with
-    # the output the real iterator produced.  After `drop` the trace is cut (whether a pending send still succeeds is a race
+    # the output the real iterator produced.  After `drop` the workers' events are left out (whether a pending send still succeeds is a race
     # the model resolves one way; thread exit after drop is decided by the thread count above).
     treqs, tmeta = [], []
     for t in traces:
         labs = []
+        dropped = False
         for tok in t["trace"].split():
             k, w = tok[0], int(tok[1:])
             if k == "d":
-                labs.append(["d"]); break
-            labs.append(["n"] if k == "n" else [k, w])
+                labs.append(["d"]); dropped = True
+            elif k == "n":
+                labs.append(["n"])          # (a `next` after `drop` is refused by the model: nothing may pull more work once the iterator is gone)
+            elif not dropped:
+                labs.append([k, w])
         treqs.append({"m": "pmaptrace", "threads": t["threads"], "n": t["n"], "trace": labs}); tmeta.append((t, labs))
     treps = lean.driver(treqs) if treqs else []
     trace_bad, trace_events = [], 0
